@@ -36,6 +36,15 @@ Proof. intros P r Hr x. cbn. split; [intros [<-|Hx]; assumption|intros Hx; now r
 Corollary C12_split : forall P1 P2 : list (srule A), same_rules (P1 ++ P2) (P2 ++ P1).
 Proof. intros P1 P2 x. rewrite !in_app_iff. tauto. Qed.
 End C12.
+Require Import GenPrelude FromTransformers Ctx FutTransform FutTransformProofs.
+(* the transformer model compared with transformers.transform on every run: two accepted programs with the same statements (any order, any
+   repetition) get the same bridge rules and future signatures *)
+Theorem C12_future_predicates_do_not_depend_on_statement_order : forall (A : Type) (leA : A -> A -> bool), (forall a b, leA a b = true \/ leA b a = true) ->
+  (forall a b c, leA a b = true -> leA b c = true -> leA a c = true) -> (forall a b, leA a b = true -> leA b a = true -> a = b) ->
+  forall (P Q : list (frule A)) (o o' : output A), (forall r, In r P <-> In r Q) ->
+  transform_program A leA P = Some o -> transform_program A leA Q = Some o' -> o_bridge A o = o_bridge A o'.
+Proof. exact bridges_order_independent. Qed.
+Print Assumptions C12_future_predicates_do_not_depend_on_statement_order.
 Print Assumptions C12_order_dup_split.
 Print Assumptions C12_tsm_same.
 Print Assumptions C12_duplicate.
